@@ -304,13 +304,17 @@ def run_case(seed, c):
     case = dict(c, seed=seed)
     cid = (fam[0], l, refs, br, n, ncol, var)
 
+    # the overall level of the Hankel matrix / of the records is free (variances relative to f^2 are scale invariant): unit level,
+    # and a very small one (nanometre displacements in metres) on every second lattice point
+    level = 1.0 if (l + br + n + ncol + (0 if fam == "exact" else 1)) % 2 else 1e-9
+    t.outcomes[f"level:{level:g}"] += 1
     T = None
     if fam == "exact":
-        H = hankel_exact(seed, l, refs, br, n, var)
+        H = (level ** 2) * hankel_exact(seed, l, refs, br, n, var)
         T = payload.normal(seed, f"c17/T/{l}/{refs}/{br}/{n}/{var}", (H.size, 20))[:, :ncol] * 1e-3 * np.linalg.norm(H) / np.sqrt(H.size)
     else:
         nb = 3 if ncol == 1 else ncol
-        data = record(seed, l, n, var)[:ndat_for(br)]
+        data = level * record(seed, l, n, var)[:ndat_for(br)]
         Y = data.T                                        # same memory layout as the algorithm class uses (a transposed view)
         Yref = Y[list(refs), :] if r < l else Y
         t.evaluations += 1
@@ -502,7 +506,7 @@ def explore(ctx):
     ctx.bounds["infeasible_lattice_points (H too small for order n)"] = infeasible
     items.sort(key=lambda it: -(it[5][0] * it[4] ** 2 * (it[3] + 1) ** 2 * it[1] * len(it[2])))
     ctx.pmap(_slice, items, chunksize=1)
-    ctx.require("exact:judged", "data:judged", "factor:holds", "factor:remainder-record-judged", "factor:vec-order-decidable", "additivity:holds", "class:holds",
+    ctx.require("level:1", "level:1e-09", "exact:judged", "data:judged", "factor:holds", "factor:remainder-record-judged", "factor:vec-order-decidable", "additivity:holds", "class:holds",
                 "order-below-ordmax-judged", "columns:1", "columns:20")
 
 
